@@ -149,6 +149,15 @@ def translate():
             raise _absent("no call to elide_proxy_owned_trailers in h1.rs / h2.rs")
         if n1 < 2 or n2 < 1:
             raise F.Unreadable("elide_proxy_owned_trailers is called %d time(s) in h1.rs and %d in h2.rs" % (n1, n2))
+        # in h1.rs the call runs as soon as the parser is IN the trailer section (lines parsed so far are forwarded at once)
+        for mc in re.finditer(r"\belide_proxy_owned_trailers\s*\(", h1):
+            back = h1[max(0, mc.start() - 700):mc.start()]
+            mp = list(re.finditer(r"matches!\(\s*[\w.]*parsing_phase\s*,([^()]*)\)", back))
+            if not mp:
+                raise F.Unreadable("the parsing phases on which h1.rs elides the trailers are not recognised")
+            phases = set(re.findall(r"ParsingPhase::(\w+)", mp[-1].group(1)))
+            if not {"Trailers", "Terminated"} <= phases:
+                return "h1.rs elides the proxy-owned trailers only in phase(s) %r: fields parsed while the section is incomplete are forwarded before" % sorted(phases)
     _fact(fails, "h1.rs / h2.rs trailer filtering", "both H1 parse sites and the H2 trailer path call elide_proxy_owned_trailers", call_sites, hard=True)
 
     def conn_specific():
@@ -198,6 +207,35 @@ def translate():
         if (set(range(0, 33)) | set(range(127, 256))) not in sets or (set(range(0, 9)) | set(range(10, 32)) | {127}) not in sets:
             raise F.Unreadable("the defensive name / value byte filters of the Header arm are not recognised")
     _fact(fails, "converter.rs Header arm", "host, http2-settings, trailer, te != trailers dropped; names <= 0x20 or >= 0x7f and values with C0/DEL dropped", h2_arm, hard=True)
+
+    def retry_once():
+        rt = rd("lib/src/protocol/mux/router.rs")
+        con = F.fn_body(rt, "connect")
+        m = re.search(r"let\s+(\w+)\s*=\s*stream\.attempts\s*==\s*0\s*;", con)
+        inc = re.search(r"stream\.attempts\s*\+=\s*1\s*;", con)
+        if not m or not inc or m.start() > inc.start():
+            return "connect does not tell the first attempt from a retry (attempts == 0 read before the increment)"
+        call = re.search(r"\.route_from_request\(([^;]*?)\)\s*\.map_err", con, re.S)
+        if not call or not re.search(r"\b%s\b" % m.group(1), call.group(1)):
+            return "route_from_request is not told whether this is the first attempt"
+        sig = re.search(r"fn\s+route_from_request\s*<[^>]*>\s*\(([^)]*)\)", rt, re.S)
+        flag = [x.strip().split(":")[0].strip() for x in sig.group(1).split(",") if re.search(r":\s*bool\s*$", x.strip())] if sig else []
+        body = F.fn_body(rt, "route_from_request")
+        ap = re.search(r"\bapply_request_rewrites_and_headers\s*\(", body)
+        if not ap or len(flag) != 1:
+            raise F.Unreadable("the call of apply_request_rewrites_and_headers / the flag parameter are not recognised")
+        if not re.search(r"if\s+%s\s*\{\s*$" % flag[0], body[:ap.start()].rstrip()):
+            return "the request policy is applied on every connection attempt (not guarded by the first-attempt flag)"
+    _fact(fails, "router.rs connect / route_from_request", "the request-side policy is applied on the first connection attempt only", retry_once, hard=True)
+
+    def request_id():
+        h1 = rd("lib/src/protocol/mux/h1.rs")
+        mr = re.search(r"stream\.context\.reset\(\)\s*;", h1)
+        if not mr:
+            raise F.Unreadable("the keep-alive reset of the request context is not found")
+        if not re.search(r"stream\.context\.id\s*=\s*Ulid::generate\(\)\s*;\s*$", h1[:mr.start()].rstrip()):
+            return "the keep-alive reset does not give the next request an id of its own (context.id = Ulid::generate() before context.reset())"
+    _fact(fails, "h1.rs keep-alive reset", "every request of a keep-alive connection gets its own id", request_id, hard=True)
 
     # ---- not observed by any driver: stays hard, read as values
     def reserved():
@@ -453,6 +491,52 @@ def bb_cases(rng, tier):
             ops.append(["cuts"] + sorted(rng.randint(1, max(1, len(raw) - 1)) for _ in range(rng.randint(1, 4))))
         ops.append(["raw", raw])
         out.append(Case("y%d" % i, ops, dict(kind="bb")))
+    out += trailer_split_cases(rng, {"quick": 10, "thorough": 120}.get(tier, 10))
+    # a frontend with a request-header rule (driver cluster "r", hostname retry.x: append X-Op, delete X-Drop) whose first
+    # backend refuses connections: whichever backend the balancer picks first, the rule is applied once (oracle
+    # bb-operator-header in the driver)
+    for i in range({"quick": 8, "thorough": 60}.get(tier, 8)):
+        raw = b""
+        for j in range(rng.choice([1, 1, 2])):
+            raw += b"GET /r%d-%d HTTP/1.1\r\nHost: retry.x\r\nX-Drop: a\r\n%s\r\n" % (i, j, rng.choice([b"", b"X-Op: client\r\n", b"X-A: 1\r\n"]))
+        out.append(Case("rt%d" % i, [["raw", raw]], dict(kind="bb")))
+    return out
+
+
+def trailer_split_cases(rng, n):
+    """a chunked request whose TRAILER SECTION arrives in two (or three) TCP segments with a pause long enough for sozu
+    to parse and forward the first part before the rest arrives: the cut is at every line boundary of the section and in
+    the middle of a line; the section carries client copies of the proxy-owned names (a second, pipelined request with
+    the same shape follows in half of the cases). Driver op: script <bytes> <pause ms> <bytes> ... r"""
+    out = []
+    for i in range(n):
+        lines = []
+        for _ in range(rng.randint(2, 4)):
+            nm = rng.choice(["X-Forwarded-For", "x-forwarded-for", "Forwarded", "X-Real-IP", "X-Request-Id", "Sozu-Id", "sozu-id", "SOZU-ID", "X-T", "Grpc-Status"])
+            lines.append(b(nm) + b": " + b(rng.choice(["6.6.6.6", "FORGED", "for=6.6.6.6", "0"])) + b"\r\n")
+        head = b"POST /t%d HTTP/1.1\r\nHost: x\r\nTransfer-Encoding: chunked\r\n\r\n3\r\nabc\r\n0\r\n" % i
+        section = b"".join(lines) + b"\r\n"
+        # cut points inside the section: after each complete line (before the closing empty line), or mid-line
+        bounds = [sum(len(l) for l in lines[:k]) for k in range(1, len(lines) + 1)]
+        cuts = {rng.choice(bounds)}
+        if rng.random() < 0.5:
+            cuts.add(rng.randint(1, len(section) - 1))
+        cuts = sorted(cuts)
+        first_at = 0 if i % 3 else rng.choice([0, len(head) - 5])      # sometimes the head itself is split too
+        msg = head + section
+        pts = ([first_at] if first_at else []) + [len(head) + c for c in cuts]
+        steps, pos = [], 0
+        for pt in pts:
+            steps += [msg[pos:pt], rng.choice([40, 80, 150])]
+            pos = pt
+        steps.append(msg[pos:])
+        ops = ["script"] + steps + ["r"]
+        if i % 2:
+            # the same again, pipelined on the connection after the first answer
+            msg2 = msg.replace(b"/t%d" % i, b"/u%d" % i)
+            c2 = len(head) + rng.choice(bounds)
+            ops += [msg2[:c2], rng.choice([40, 80]), msg2[c2:], "r"]
+        out.append(Case("ts%d" % i, [ops], dict(kind="bb")))
     return out
 
 
